@@ -113,59 +113,63 @@ type Exec struct {
 	timers []*timer
 	ntimer int
 
-	locks   map[*Value]*lockState
-	conds   map[*Value]*condState
-	wgs     map[*Value]*wgState
-	sems    map[*Value]*semState
-	onces   map[*Value]bool
-	nmap    int
-	intMode bool
-	bigHuge int // big.Int values outside the modelled range met so far
-	fpErrN  int // fresh rounding-error variables of the relaxed float64 model (Int mode)
+	locks       map[*Value]*lockState
+	conds       map[*Value]*condState
+	wgs         map[*Value]*wgState
+	sems        map[*Value]*semState
+	onces       map[*Value]bool
+	nmap        int
+	intMode     bool
+	maxGap      int             // most instructions executed between two signs of progress
+	progressAt  int             // e.steps at the last sign of progress (see livelock)
+	blsInvalid  map[string]bool // public key bytes the harness declared undecodable
+	blsVerifies []*Term         // results of the BLS signature verifications made on this path (symbolic)
+	bigHuge     int             // big.Int values outside the modelled range met so far
+	fpErrN      int             // fresh rounding-error variables of the relaxed float64 model (Int mode)
 
 	opts ExecOpts
 
-	vndVars   map[string]*Term
-	vndOrder  []string
-	vndCount  map[string]int
-	asserts   map[string]int // label -> discharged count on this path
-	covers    map[string]bool
-	coverModel map[string]map[string]string
-	steps     int
-	funcs     map[*ssa.Function]int // functions executed (instr counts)
-	lastStack []string
-	stubs     map[string]int
-	unknowns  int
+	vndVars     map[string]*Term
+	vndOrder    []string
+	vndCount    map[string]int
+	asserts     map[string]int // label -> discharged count on this path
+	covers      map[string]bool
+	coverModel  map[string]map[string]string
+	steps       int
+	funcs       map[*ssa.Function]int // functions executed (instr counts)
+	lastStack   []string
+	stubs       map[string]int
+	unknowns    int
 	overflowObl int
 
-	violation *Violation
-	trace     []string
-	ghost     []string
-	race      *raceMon
-	preempts  int
-	ctxType    types.Type
-	bgCtx      *CtxV
-	unixOrigin map[*Term]*Term
-	durSplit   map[*Term][2]*Term
-	timeDivs   int
-	atomVC     map[*Value][]int
-	redirects  map[string]Value
-	nativeHash func(name string, in []byte) []byte
-	gomaxprocs int
-	mainThread *Thread
-	harnessPkg *ssa.Package
-	inconclusive []string
-	assertsTotal int
-	ufApps map[string][]ufApp
-	intOrigin map[*Term]*Term
-	bigs map[*Value]*Term
-	lastRun *Thread
-	usedUF bool
-	viper map[string]IfaceV
-	pending []pendingAssert
-	known map[*Term]bool
-	regexps map[*Value]string
-	initNow *ssa.Function
+	violation       *Violation
+	trace           []string
+	ghost           []string
+	race            *raceMon
+	preempts        int
+	ctxType         types.Type
+	bgCtx           *CtxV
+	unixOrigin      map[*Term]*Term
+	durSplit        map[*Term][2]*Term
+	timeDivs        int
+	atomVC          map[*Value][]int
+	redirects       map[string]Value
+	nativeHash      func(name string, in []byte) []byte
+	gomaxprocs      int
+	mainThread      *Thread
+	harnessPkg      *ssa.Package
+	inconclusive    []string
+	assertsTotal    int
+	ufApps          map[string][]ufApp
+	intOrigin       map[*Term]*Term
+	bigs            map[*Value]*Term
+	lastRun         *Thread
+	usedUF          bool
+	viper           map[string]IfaceV
+	pending         []pendingAssert
+	known           map[*Term]bool
+	regexps         map[*Value]string
+	initNow         *ssa.Function
 	wantCoverModels bool
 }
 
@@ -174,15 +178,19 @@ type ExecOpts struct {
 	Preemptions int
 	MapOrders   bool // explore all iteration orders of maps with <=3 entries
 	MaxSteps    int
-	Races       bool
-	IntMode     bool
-	Trace       bool
-	FullBytes   bool // vnd.Root/Sig/... fully symbolic instead of 5 symbolic bytes
-	NoBatch     bool // discharge every assertion with its own query
+	// LivelockSteps: instructions one path may execute without any goroutine blocking or
+	// ending and without the clock advancing before it is reported as a busy loop
+	// (default: half the step bound, judged when the step bound is hit).
+	LivelockSteps int
+	Races         bool
+	IntMode       bool
+	Trace         bool
+	FullBytes     bool // vnd.Root/Sig/... fully symbolic instead of 5 symbolic bytes
+	NoBatch       bool // discharge every assertion with its own query
 }
 
 type Violation struct {
-	Kind   string            `json:"kind"` // assert, panic, deadlock, race
+	Kind   string            `json:"kind"` // assert, panic, deadlock, livelock, race
 	Label  string            `json:"label"`
 	Msg    string            `json:"msg"`
 	Model  map[string]string `json:"model"`
@@ -366,6 +374,7 @@ func (e *Exec) concreteInt(v Value, what string) int {
 
 func (e *Exec) newThread(fn Value, args []Value, name string) *Thread {
 	th := &Thread{id: len(e.threads), name: name}
+	e.progress()
 	e.threads = append(e.threads, th)
 	if e.race != nil {
 		e.race.newThread(e, th)
@@ -525,4 +534,3 @@ func (P *Program) ensureBuilt(fn *ssa.Function) {
 		P.build(o.Pkg)
 	}
 }
-
